@@ -99,8 +99,8 @@ def render_isar_struct(draw, schema, st_, patch):
                 parts.append('<member %s><dimension size="%s" size2="1"/></member>' % (attrs, m.size_expr))
                 forms.add('size2-named')
             else:
-                parts.append('<member %s><dimension size="%s"/></member>' % (attrs, ir._xml(m.size_expr)))
-                forms.add('size')
+                parts.append('<member %s><dimension size="%s"/></member>' % (attrs, ir._xml(ir.isar_size(m))))
+                forms.add('size' if ir.isar_size(m) == m.size_expr else 'size-literal-for-expression')
         elif m.kind == EXTARR:
             parts.append('<member %s><dimension variableSizeFieldName="@%s"/></member>' % (attrs, m.sizer))
             forms.add('ext')
@@ -125,7 +125,7 @@ def render_isar_struct(draw, schema, st_, patch):
         elif m.kind == LIMARR:
             if deg in (3, 4):
                 parts.append('<member name="num_of_%s" type="u32"/>' % m.name)
-                parts.append('<member %s><dimension size="%s"/></member>' % (attrs, ir._xml(m.size_expr)))
+                parts.append('<member %s><dimension size="%s"/></member>' % (attrs, ir._xml(ir.isar_size(m))))
                 patch.append('%s limited %s num_of_%s' % (st_.name, m.name, m.name))
                 forms.add('patch:limited')
             elif m.size % 2 == 0 and m.size > 2 and m.size_expr == str(m.size) and draw(st.booleans()):
@@ -134,7 +134,7 @@ def render_isar_struct(draw, schema, st_, patch):
                 forms.add('limited-size2')
             else:
                 parts.append('<member %s><dimension size="%s" isVariableSize="true" '
-                             'variableSizeFieldName="num_of_%s"/></member>' % (attrs, ir._xml(m.size_expr), m.name))
+                             'variableSizeFieldName="num_of_%s"/></member>' % (attrs, ir._xml(ir.isar_size(m)), m.name))
                 forms.add('limited')
         elif m.kind == GREEDY:
             parts.append('<member %s><dimension size="1"/></member>' % attrs)
@@ -320,7 +320,8 @@ def body(case, stats):
 
 def gen_opts():
     return gen.GenOpts(big_sizes=False, min_decls=2, max_decls=8, allow_unset=False, aligned_greedy=False,
-                       const_ref_bias=3, const_exprs=True, avoid=common.avoid_set(ID), enum_aliases=False)
+                       const_ref_bias=3, const_exprs=True, rich_size_exprs=True, avoid=common.avoid_set(ID),
+                       enum_aliases=False)
 
 
 def worker(widx, seed, tier, stats):
